@@ -172,10 +172,11 @@ class Report:
         ev = dict(property_id=self.prop, tier=self.tier, seed=self.seed, level=self.level, coverage=cov,
                   assumptions=self.assumptions, wall_s=wall, violations=len(self.violations),
                   known_findings_seen=self.known)
-        os.makedirs(EVIDENCE, exist_ok=True)
-        with open(os.path.join(EVIDENCE, self.prop + ".json"), "w") as f:
-            json.dump(ev, f, indent=1, sort_keys=True, default=str)
-            f.write("\n")
+        if not os.environ.get("VERIF_REPLAY"):        # a replay of one recorded case does not overwrite the evidence of the last full run
+            os.makedirs(EVIDENCE, exist_ok=True)
+            with open(os.path.join(EVIDENCE, self.prop + ".json"), "w") as f:
+                json.dump(ev, f, indent=1, sort_keys=True, default=str)
+                f.write("\n")
         print("%s %s: %s (model states=%d, impl traces=%d, violations=%d, wall=%.1fs)" % (
             self.prop, self.tier, "OK" if not self.violations else "VIOLATED", cov["states"],
             cov["traces_validated_against_impl"], len(self.violations), wall))
